@@ -60,7 +60,7 @@ def build_go():
     """Build the gopatch binary and the harness from /repo's working tree.
     Cached by a hash of the Go sources of /repo and of the harness."""
     os.makedirs(BUILD, exist_ok=True)
-    hsrc = sorted(glob.glob(os.path.join(VERIF, "harness", "zzverif", "*.go")))
+    hsrc = sorted(glob.glob(os.path.join(VERIF, "harness", "zzverif", "*.go"))) + sorted(glob.glob(os.path.join(VERIF, "harness", "astdiff", "*.go")))
     with Lock("go"):
         key = tree_hash(repo_sources() + hsrc)
         stamp = os.path.join(BUILD, "go.stamp")
@@ -72,7 +72,9 @@ def build_go():
         for p in (binp, harn, stamp):
             if os.path.exists(p):
                 os.remove(p)
-        ov = {"Replace": {os.path.join(REPO, "internal", "zzverif", os.path.basename(p)): p for p in hsrc}}
+        # the harness is a package of its own; harness/astdiff adds one file to package internal/astdiff (a dump of its
+        # unexported snapshot values for the model) - all through -overlay, nothing is written to the tree
+        ov = {"Replace": {os.path.join(REPO, "internal", os.path.basename(os.path.dirname(p)), os.path.basename(p)): p for p in hsrc}}
         ovp = os.path.join(BUILD, "overlay.json")
         with open(ovp, "w") as f:
             json.dump(ov, f)
@@ -95,7 +97,7 @@ def build_go():
 
 def build_race_harness():
     """The harness built with the race detector (cgo needed), cached like the other binaries; None if it cannot be built."""
-    hsrc = sorted(glob.glob(os.path.join(VERIF, "harness", "zzverif", "*.go")))
+    hsrc = sorted(glob.glob(os.path.join(VERIF, "harness", "zzverif", "*.go"))) + sorted(glob.glob(os.path.join(VERIF, "harness", "astdiff", "*.go")))
     with Lock("go"):
         key = tree_hash(repo_sources() + hsrc)
         stamp = os.path.join(BUILD, "race.stamp")
